@@ -4,7 +4,8 @@ from common import Failure
 from props._base import *  # noqa
 from refids import ref_decode, union_spans, ref_res, MAXV
 
-LEAN_MODULES = ['A5.Props.C08']
+LEAN_MODULES = ['A5.Props.C08', 'A5.Props.SrcTie.Compact']
+SRC_TIE = True
 LEVEL = 'proof'
 EXPLANATION = ('Lean theorem for EVERY finite list of valid ids (mixed resolutions -1..29, duplicates, any order, ancestors next to descendants): compact is total, returns valid ids, and a cell of any '
                'level R >= all input resolutions is covered by the output iff it is covered by the input; corollary in observable form set(uncompact(compact(X),R)) = set(uncompact(X,R)). '
